@@ -162,7 +162,7 @@ def run_case(desc):
     n_pairs = int(M.sum())
     if n_pairs == 0:
         return {"status": "skip", "skip_reason": "no available pair"}
-    bs = int([1, 2, 3, n_pairs, n_pairs + 2][rng.randint(5)])
+    bs = int([1, 2, 3, 5, 7, max(1, n_pairs // 2), n_pairs, n_pairs + 2][rng.randint(8)])
     if desc.get("bs") == "all":
         bs = n_pairs + int(rng.randint(0, 3))
     k_exp = min(bs, n_pairs)
@@ -196,7 +196,7 @@ def run_case(desc):
         elif aperf == "mat":
             kw["A_perf"] = np.round(rng.rand(n_c, A), 2)
         comp = "SingleAnnotatorWrapper"
-        nps_int = nps if isinstance(nps, int) else None
+        nps_int = nps if isinstance(nps, int) else [int(v) for v in np.asarray(nps).tolist()]
     # sample-level labels seen by the wrapped strategy (for the G22 trigger)
     cand_rows = rows_idx if cmode != "feat" else np.array([], int)
     some_cand_labelled = bool(len(cand_rows) and (~np.isnan(Y[cand_rows])).any(axis=1).any()) if cmode != "feat" else False
@@ -266,12 +266,15 @@ def run_case(desc):
                     for p in pairs:
                         if p[0] not in order:
                             order.append(p[0])
-                    for s in order[:-1]:
+                    for rank, s in enumerate(order[:-1]):
                         got = sum(1 for p in pairs if p[0] == s)
-                        want = min(nps_int, int(M[s].sum()))
+                        # documented: entry i of an array is the preference of the i-th ranked sample, the last entry holds
+                        # for all later samples
+                        req = nps_int if isinstance(nps_int, int) else nps_int[min(rank, len(nps_int) - 1)]
+                        want = min(req, int(M[s].sum()))
                         if got < want:
-                            add("fewer-annotators-than-requested", "sample %d got %d annotators, requested %d, available %d, and the batch "
-                                "continued with other samples: %s" % (s, got, nps_int, int(M[s].sum()), pairs))
+                            add("fewer-annotators-than-requested", "sample %d (rank %d) got %d annotators, requested %d, available %d, and the "
+                                "batch continued with other samples: %s" % (s, rank, got, req, int(M[s].sum()), pairs))
                             break
     rect = len({int(x) for x in M.sum(axis=1) if x > 0}) <= 1
     nontrivial = (not rect) and bs >= 2
